@@ -3550,11 +3550,10 @@ func TestC18Subscribe(t *testing.T) {
 			}
 		}
 		if dupNote != "" {
-			// a genuine defect of rpc/api/subscribe, reported; asserted only once it is registered as a known finding
-			c.Class("finding-descendant-notified-twice (asserted only when registered as known)")
-			if c.Known(keySubDuplicate) {
-				c.Failf(keySubDuplicate, "%s", dupNote)
-			}
+			// a genuine defect of rpc/api/subscribe when this check was written (repaired in the repository since; see
+			// KNOWN_FINDINGS.txt): a block announced twice in one notification is a violation
+			c.Class("descendant-notified-twice")
+			c.Failf(keySubDuplicate, "%s", dupNote)
 		}
 		c.Note("a=%v b=%v: %d warm-up + %d momentums, heights %d..%d; notifications: %d / %d / %d / %d", a, b, warm, n, first, flush, len(streams[0].got), len(streams[1].got), len(streams[2].got), len(streams[3].got))
 		if n >= 3 && busy > 0 {
